@@ -1,0 +1,14 @@
+//go:build verif
+
+// Package verifhook provides named points at which a verification harness can observe or
+// hold a goroutine. It only exists in builds with the "verif" tag; see off.go.
+package verifhook
+
+// Gate, when set by a harness, is called with the name of the point reached.
+var Gate func(name string)
+
+func At(name string) {
+	if g := Gate; g != nil {
+		g(name)
+	}
+}
